@@ -108,8 +108,15 @@ theorem C10R_cadence_forever (W : World) (outer : Outer) (ho : outer = .recv ∨
   · rw [r3.wire, c3.wire]
   · rw [r3.log, c3.log]
 
-/-- **C10, the gap between consecutive client packets never exceeds the keep-alive.** Under the
-hypotheses of `C10R_cadence_forever`:
+/-- **C10, the gap between consecutive client packets never exceeds the keep-alive — given a prompt
+executor.** The schedule's admissibility (`SchedOK`: each waking tick lands between the PINGREQ time and
+the end of the keep-alive period, i.e. the executor honours the deadline the crate hands it within the
+5 s of slack the crate leaves) is an *assumption* about the environment, and the upper bound below is
+that assumption read off the clock. What the machine contributes, and what is proved, is everything
+that makes the assumption sufficient: the PINGREQ is complete at the very tick that wakes the client
+(no further wait), exactly one `C0 00` goes out, the deadline handed to the executor for the next round
+is `completion + (ka − 5 s)` — never later, so a prompt executor can always meet it — and nothing else
+is ever needed. Under the hypotheses of `C10R_cadence_forever`:
 * the first PINGREQ of the schedule is complete (clock of the world after its flush decision) no later
   than `t0 + ka ms`, and between the start and that moment exactly `C0 00` was written;
 * for any two consecutive rounds `r`, `r'`, the clocks `C.now`, `C'.now` of the worlds after their flush
